@@ -77,10 +77,14 @@ type Ctx struct {
 	skn     int
 	rootFrame *Frame
 	defs    map[string]string // named definitions (name -> term), for syntactic frame checks
+	frameLocals bool
+	localObjs []string // references of the heap objects of address-taken locals allocated so far (function-private)
+	refBound map[string]bool
 	reachParts map[string][]string // merged path condition -> the edge conditions it is the disjunction of
 	pendingBindings []Val     // captured-variable values for the closure body about to be executed
 	viewResult bool           // the slice being created is a view into a ghost stream array
 	frameTop string           // allocation horizon used by loop frame conditions
+	skipFrameInit bool
 	loopTop  map[int]string   // loop header -> allocation horizon at the loop head
 }
 
@@ -95,6 +99,21 @@ func (c *Ctx) fresh(pfx, sort string) string {
 	nm := fmt.Sprintf("%s_%d", sanitizeSym(pfx), c.n)
 	c.decls = append(c.decls, fmt.Sprintf("(declare-const %s %s)", nm, sort))
 	return nm
+}
+
+// freshHeap declares a fresh heap component. Modelling convention: the fields of the nil object (reference 0) are zero
+// (nil pointers, empty slices/interfaces); a nil dereference is an obligation of its own, so the convention is never
+// observable by the program, but it keeps unrolled pointer chains in contracts (b.outer.outer...) nil-terminated.
+func (c *Ctx) freshHeap(sort string) string {
+	nm := c.fresh("H", sort)
+	c.nilRow(nm, sort)
+	return nm
+}
+
+func (c *Ctx) nilRow(nm, sort string) {
+	if sort == "(Array Int Int)" {
+		c.assume("true", fmt.Sprintf("(= (select %s 0) 0)", nm))
+	}
 }
 
 func sanitizeSym(s string) string {
@@ -184,7 +203,16 @@ func keyHasPrefix(k, p string) bool {
 // defGen: generation that names component key (hkey is "M:"+key for element memories) when it is first touched in s.
 func (s *State) defGen(hkey string) int {
 	g := s.gen
+	// components owned by a package keep the generation they had before a `foreign` havoc ("own!pkg" entries)
 	for p, pg := range s.pgen {
+		if strings.HasPrefix(p, "own!") && ownedKey(strings.TrimPrefix(hkey, "M:"), p[4:]) && pg < g {
+			g = pg
+		}
+	}
+	for p, pg := range s.pgen {
+		if strings.HasPrefix(p, "own!") {
+			continue
+		}
 		if pg <= g {
 			continue
 		}
@@ -217,6 +245,9 @@ func (c *Ctx) defName(s *State, hkey string) string {
 	if !c.defDecl[nm] {
 		c.defDecl[nm] = true
 		c.decls = append(c.decls, fmt.Sprintf("(declare-const %s %s)", nm, s.hsort[hkey]))
+		if !strings.HasPrefix(hkey, "M:") {
+			c.nilRow(nm, s.hsort[hkey])
+		}
 	}
 	return nm
 }
@@ -303,7 +334,7 @@ func (c *Ctx) havocAll(s *State, reach string) {
 		if strings.HasPrefix(k, "ghost.const.") {
 			continue
 		}
-		s.heap[k] = c.fresh("H", s.hsort[k])
+		s.heap[k] = c.freshHeap(s.hsort[k])
 	}
 	for k := range s.mem {
 		s.mem[k] = c.fresh("M", s.hsort["M:"+k])
@@ -372,7 +403,7 @@ func (c *Ctx) mergeStates2(conds []string, sts []*State) *State {
 				o = c.defName(out, k)
 			}
 			if o != v {
-				out.heap[k] = c.name("hm", out.hsort[k], fmt.Sprintf("(ite %s %s %s)", conds[i], v, o))
+				out.heap[k] = c.mergeArr("hm", out.hsort[k], conds[i], v, o)
 			} else {
 				out.heap[k] = v
 			}
@@ -394,7 +425,7 @@ func (c *Ctx) mergeStates2(conds []string, sts []*State) *State {
 				o = c.defName(out, "M:"+k)
 			}
 			if o != v {
-				out.mem[k] = c.name("mm", out.hsort["M:"+k], fmt.Sprintf("(ite %s %s %s)", conds[i], v, o))
+				out.mem[k] = c.mergeArr("mm", out.hsort["M:"+k], conds[i], v, o)
 			} else {
 				out.mem[k] = v
 			}
@@ -484,7 +515,18 @@ func (c *Ctx) leafSet(s *State, l objLoc, path, sort, term string) {
 
 func (c *Ctx) loadAt(s *State, l objLoc, t types.Type, path string) Val {
 	if srt, ok := scalarSort(t); ok {
-		return Sc{c.leafGet(s, l, path, srt), srt}
+		term := c.leafGet(s, l, path, srt)
+		if srt == "Int" && c.noName == 0 {
+			// heap well-formedness: a reference stored in the heap denotes nil or an object allocated so far
+			if c.refBound == nil {
+				c.refBound = map[string]bool{}
+			}
+			if key := term + "|" + c.top; !c.refBound[key] {
+				c.refBound[key] = true
+				c.assume("true", fmt.Sprintf("(and (>= %s 0) (<= %s %s))", term, term, c.top))
+			}
+		}
+		return Sc{term, srt}
 	}
 	switch u := t.Underlying().(type) {
 	case *types.Struct:
@@ -980,4 +1022,103 @@ func balancedTree(vals []string, lo, hi int, def string) string {
 		return def
 	}
 	return fmt.Sprintf("(ite (bvult i %s) %s %s)", i64(int64(hi)), rec(lo, hi), def)
+}
+
+// unfoldStores lists the array terms below t along its store chain: t itself, the array it stores into, and so on
+// (through named definitions), with the index and value of each store.
+func (c *Ctx) unfoldStores(t string) (terms, idx, val []string) {
+	terms = append(terms, t)
+	for len(terms) < 64 {
+		d := t
+		if x, ok := c.defs[t]; ok {
+			d = x
+		}
+		if !strings.HasPrefix(d, "(store ") {
+			break
+		}
+		kids, _ := sexprChildren(d, 0)
+		if len(kids) != 4 {
+			break
+		}
+		idx = append(idx, d[kids[2][0]:kids[2][1]])
+		val = append(val, d[kids[3][0]:kids[3][1]])
+		t = d[kids[1][0]:kids[1][1]]
+		terms = append(terms, t)
+	}
+	return
+}
+
+// mergeArr merges two versions of a heap component at a control-flow join. When both are store chains over a common
+// array with the same sequence of indices (the usual case: every branch called a function with the same `modifies`
+// locations), or one of them is that common array itself, the merge is done value by value -
+//   store(.. store(C, l1, ite(c, a1, b1)) .., ln, ite(c, an, bn))
+// which is equal to (ite c A B) for every aliasing of the indices (same store order in both branches; a missing store is
+// the identity store of select(C, l)) and spares the solver a case split over whole arrays.
+func (c *Ctx) mergeArr(pfx, sort, cond, v, o string) string {
+	plain := func() string { return c.name(pfx, sort, fmt.Sprintf("(ite %s %s %s)", cond, v, o)) }
+	tv, iv, vv := c.unfoldStores(v)
+	to, io, vo := c.unfoldStores(o)
+	posO := map[string]int{}
+	for j, t := range to {
+		if _, ok := posO[t]; !ok {
+			posO[t] = j
+		}
+	}
+	jv, jo := -1, -1
+	for j, t := range tv {
+		if k, ok := posO[t]; ok {
+			jv, jo = j, k
+			break
+		}
+	}
+	if jv < 0 || (jv == 0 && jo == 0) {
+		return plain()
+	}
+	common := tv[jv]
+	// stores above the common array, innermost first
+	rev := func(a []string, n int) []string {
+		out := make([]string, n)
+		for i := 0; i < n; i++ {
+			out[i] = a[n-1-i]
+		}
+		return out
+	}
+	aI, aV := rev(iv, jv), rev(vv, jv)
+	bI, bV := rev(io, jo), rev(vo, jo)
+	switch {
+	case len(aI) == len(bI):
+		for i := range aI {
+			if aI[i] != bI[i] {
+				return plain()
+			}
+		}
+	case len(bI) == 0:
+		bI = aI
+		bV = make([]string, len(aI))
+		for i, l := range aI {
+			bV[i] = fmt.Sprintf("(select %s %s)", common, l)
+		}
+	case len(aI) == 0:
+		aI = bI
+		aV = make([]string, len(bI))
+		for i, l := range bI {
+			aV[i] = fmt.Sprintf("(select %s %s)", common, l)
+		}
+	default:
+		return plain()
+	}
+	if len(aI) > 12 {
+		return plain()
+	}
+	inner := strings.TrimSuffix(strings.TrimPrefix(sort, "(Array Int "), ")")
+	t := common
+	for i := range aI {
+		val := aV[i]
+		if aV[i] != bV[i] {
+			val = c.name("mv", inner, fmt.Sprintf("(ite %s %s %s)", cond, aV[i], bV[i]))
+		}
+		t = c.name(pfx, sort, fmt.Sprintf("(store %s %s %s)", t, aI[i], val))
+	}
+	c.notes["merge-pointwise"]++
+	return t
 }
